@@ -149,6 +149,12 @@ def zz_whenblocked(eng, st, fr, args, ins):
     return None
 
 
+@intr(ZZ + "InlineGo")
+def zz_inlinego(eng, st, fr, args, ins):
+    st.world["inline_go"] = True
+    return None
+
+
 @intr(ZZ + "SameCommitment")
 def zz_samecommitment(eng, st, fr, args, ins):
     a, b = args
